@@ -88,4 +88,6 @@ def signature_holds(f, case, il, ml):
         return r["kind"] == "ret" and not r["errs"]
     if sig == "timeout":
         return r["kind"] == "timeout"
+    if sig == "crash":          # the host process dies on the witness (Go's fatal stack overflow is not recoverable)
+        return r["kind"] == "crash"
     return False
